@@ -230,11 +230,16 @@ Definition save_calls (k : N) (bufs : list (list N)) (f : fault) (leak : bool) :
 Definition save_ok (k : N) (bufs : list (list N)) (f : fault) (leak : bool) : bool :=
   snd (save_atts k bufs f leak).
 
-(* fileSystem.Delete: os.Remove(file) = unlink, then rmdir if that failed; not-exist is nil *)
+(* fileSystem.Delete: os.Remove(file) = unlink, then rmdir if that failed; os.Remove reports
+   the error of rmdir unless that is ENOTDIR (then the one of unlink), and Delete turns
+   not-exist into nil.  [present]: the key file exists; [fails]: unlink fails for another
+   reason than not-exist.  With the file absent rmdir says ENOENT, so Delete returns nil
+   whatever unlink said. *)
 Definition delete_atts (k : N) (present : bool) (fails : bool) : list attempt :=
   let kn := key_name k in
   if fails || negb present then [(Unlink kn, false); (Rmdir kn, false)]
   else [(Unlink kn, true)].
+Definition delete_ok (present : bool) (fails : bool) : bool := negb (fails && present).
 Definition delete_calls (k : N) : list syscall := [Unlink (key_name k)].
 
 (* ---- computable stop points (used by the case checker; FSProofs relates them to
